@@ -287,7 +287,15 @@ func (l c03) Exec(env *core.Env) *core.Result {
 					res.Violate("C03/unloadable-listed-store-ignored", key, "authenticity passed although the listed store %s cannot be loaded", broken)
 				}
 				if passed && faulted {
-					res.Violate("C03/store-load-error-ignored", key, "an I/O error was injected into a store load but authenticity passed")
+					// the statement speaks of a listed store that "cannot be loaded": what counts is that a load of a
+					// listed store of the required type reported failure to the verifier (an injected error that the
+					// store absorbed, e.g. by retrying, is not that)
+					for _, c := range rec.Log {
+						if c.Err && c.Type == required && listed[c.Name] {
+							res.Violate("C03/store-load-error-ignored", key, "the load of the listed store %s:%s failed under an injected I/O error but authenticity passed", c.Type, c.Name)
+							break
+						}
+					}
 				}
 				if !passed && verr == nil {
 					res.Violate("C03/accepted-although-not-authentic", key, "authenticity failed under enforce but verification succeeded")
